@@ -769,7 +769,12 @@ package logql
 //@ scope parser.go
 
 // Parse = tokenize, parse one expression, and insist that nothing is left over.
+// The scanner's unread-input counter belongs to the lexer packages; here it is only named as part
+// of Parse's frame (this package does not import text/scanner, hence the untyped key).
+//@ ghost state func scanRemaining(s any) int
+
 //@ func Parse
+//@   modifies *, scanRemaining(*)
 //@   capture tk = call(lexer.Tokenize, 0)
 //@   capture pe = call(p.parseExpr, 0)
 //@   capture nx = call(p.next, 0)
